@@ -4,9 +4,10 @@
 # in a fresh scratch worktree of /repo's HEAD, runs the named checks against the changed tree, and files it under /verif/seeded.
 set -u
 PROP=$1; N=$2; DEST=$3; PKG=$4; shift 4
-SRC=/tmp/mut-$PROP/_mutation/$N
-WT=/tmp/sv-$PROP-$N
-OUT=/verif/seeded/$PROP-$N
+SRC=${SEEDSRC:-/tmp/mut-$PROP/_mutation/$N}
+NAME=${SEEDNAME:-$PROP-$N}
+WT=/tmp/sv-$NAME
+OUT=/verif/seeded/$NAME
 export GOFLAGS=-mod=mod GOPROXY=off CGO_LDFLAGS=-L/verif/build/stublib
 git -C /repo worktree remove --force $WT 2>/dev/null
 git -C /repo worktree add -q --detach $WT HEAD || exit 2
@@ -28,8 +29,8 @@ cp $SRC/patch.diff $OUT/patch.diff; cp "$DEMO" $OUT/; cp $SRC/NOTES.md $OUT/NOTE
 RES=""
 for C in "$@"; do
   cd /verif
-  JSIM_REPO=$WT ./check $C quick > /tmp/sv-$PROP-$N-$C.log 2>&1; rc=$?
-  keys=$(grep -o "^violation detail \[[^]]*\]" /tmp/sv-$PROP-$N-$C.log | sed 's/violation detail //' | sort -u | head -5 | paste -sd' ')
+  JSIM_REPO=$WT ./check $C quick > /tmp/sv-$NAME-$C.log 2>&1; rc=$?
+  keys=$(grep -o "^violation detail \[[^]]*\]" /tmp/sv-$NAME-$C.log | sed 's/violation detail //' | sort -u | head -5 | paste -sd' ')
   echo "check $C against the changed tree: exit=$rc $keys"
   RES="$RES{\"check\":\"$C\",\"exit\":$rc,\"violation_keys\":\"$keys\"},"
 done
